@@ -33,13 +33,19 @@ F_hashable = z3.Function("hashable", Val, B)
 F_ok = z3.Function("ok", Val, Val, B)            # ok(callable, arg): the call returns normally
 F_res = z3.Function("res", Val, Val, Val)        # its result
 F_err = z3.Function("err", Val, Val, Val)        # the exception it raises otherwise
+F_errcls = z3.Function("errcls", Val, Val, ClsS)   # class of the exception callable f raises on x (deterministic)
+F_errval = z3.Function("errval", Val, Val, Val)    # its `input_value`
+F_raised_by = z3.Function("raised_by", Val, Val)   # observers of an exception object raised by a symbolic callable
+F_raised_on = z3.Function("raised_on", Val, Val)
 F_mk = z3.Function("construct", Val, Val, Val)   # construct(factory, element-sequence)
+F_mkseq = z3.Function("built_from", Val, Val)     # the element sequence a constructed container was built from
 F_contains = z3.Function("contains", Val, Val, B)
 F_ItemKey = z3.Function("ItemKey", Val, Val)
 F_tuple_of = z3.Function("tuple_of", Val, Val)   # tuple(x) as a sequence value
 F_keyat = z3.Function("key_at", Val, I, Val)     # mapping views: i-th key / value in iteration order
 F_valat = z3.Function("val_at", Val, I, Val)
 F_mlen = z3.Function("map_len", Val, I)
+F_touch = z3.Function("touch", Val, B)            # always true; only introduces ground terms (E-matching hints)
 NoneV = z3.Const("NoneV", Val)
 TrueV = F_BoolV(z3.BoolVal(True))
 FalseV = F_BoolV(z3.BoolVal(False))
@@ -149,3 +155,17 @@ def background(reg: Registry):
         z3.ForAll([x, y], F_pyeq(x, y) == F_pyeq(y, x), patterns=[F_pyeq(x, y)]),
     ]
     return ax
+
+
+def has_quantifier(f):
+    todo, seen = [f], set()
+    while todo:
+        x = todo.pop()
+        i = x.get_id()
+        if i in seen:
+            continue
+        seen.add(i)
+        if z3.is_quantifier(x):
+            return True
+        todo.extend(x.children())
+    return False
